@@ -188,6 +188,118 @@ def mode_real(cfg):
         shutil.rmtree(d, ignore_errors=True)
 
 
+# ------------------------------------------------------------------------------------------
+# steering the REAL spawn pool: binds the TLC model to the implementation
+# ------------------------------------------------------------------------------------------
+def logged_chain(*args):
+    """Module-level (picklable by reference from the spawned children, which re-import this file):
+    the real chain function, with a start/end line per task appended to the steering log."""
+    import time
+    import phyclone.run as prun
+
+    chain_num = args[16]
+    path = os.environ["C18_STEER_LOG"]
+    with open(path, "a") as fh:
+        fh.write("start %d %d\n" % (os.getpid(), chain_num))
+    res = _REAL_CHAIN[0](*args) if _REAL_CHAIN else prun.run_phyclone_chain(*args)
+    with open(path, "a") as fh:
+        fh.write("end %d %d\n" % (os.getpid(), chain_num))
+    return res
+
+
+_REAL_CHAIN = []
+
+
+def mode_steer(cfg, m):
+    """Run the real run() on the real spawn ProcessPoolExecutor while a monitor thread suspends
+    (SIGSTOP) all but `m` of the freshly spawned workers during their import phase, so that the
+    remaining workers are re-used.  Reports the schedule class that was actually realised."""
+    import contextlib
+    import io
+    import signal
+    import tempfile
+    import threading
+    import time
+    import phyclone.run as prun
+    from concurrent.futures import ProcessPoolExecutor
+
+    d = tempfile.mkdtemp(prefix="c18s_", dir="/dev/shm" if os.path.isdir("/dev/shm") else None)
+    log = os.path.join(d, "steer.log")
+    open(log, "w").close()
+    os.environ["C18_STEER_LOG"] = log
+    K = cfg["chains"]
+    registry = []
+
+    class SpyExecutor(ProcessPoolExecutor):
+        def __init__(self, *a, **k):
+            super().__init__(*a, **k)
+            registry.append(self)
+
+    # the submitted callable is looked up in phyclone.run's globals by run(): replace it by the logging wrapper,
+    # which calls the original (run_phyclone_chain is still reachable under its own name for the wrapper in the children)
+    orig = prun.run_phyclone_chain
+    prun.ProcessPoolExecutor = SpyExecutor
+    state = {"stopped": set(), "free": set(), "done": False}
+
+    def monitor():
+        while not state["done"]:
+            for ex in list(registry):
+                for pid in list(getattr(ex, "_processes", {}) or {}):
+                    if pid in state["stopped"] or pid in state["free"]:
+                        continue
+                    if len(state["free"]) < m:
+                        state["free"].add(pid)
+                    else:
+                        try:
+                            os.kill(pid, signal.SIGSTOP)
+                            state["stopped"].add(pid)
+                        except ProcessLookupError:
+                            pass
+            try:
+                ends = sum(1 for l in open(log) if l.startswith("end "))
+            except OSError:
+                ends = 0
+            if ends >= K and state["stopped"]:
+                for pid in list(state["stopped"]):
+                    try:
+                        os.kill(pid, signal.SIGCONT)
+                    except ProcessLookupError:
+                        pass
+                state["stopped"].clear()
+            time.sleep(0.02)
+
+    th = threading.Thread(target=monitor, daemon=True)
+    th.start()
+    path = os.path.join(d, "t.pkl.gz")
+    try:
+        # make run() submit the logging wrapper
+        prun.run_phyclone_chain = logged_chain
+        with contextlib.redirect_stdout(io.StringIO()):
+            prun.run(**run_kwargs(cfg, path))
+    finally:
+        prun.run_phyclone_chain = orig
+        state["done"] = True
+        for pid in list(state["stopped"]):
+            try:
+                os.kill(pid, signal.SIGCONT)
+            except ProcessLookupError:
+                pass
+    with gzip.GzipFile(path, "rb") as fh:
+        res = pickle.load(fh)
+    per_pid = {}
+    order = []
+    for line in open(log):
+        kind, pid, c = line.split()
+        if kind == "end":
+            per_pid.setdefault(pid, []).append(int(c))
+            order.append(int(c))
+    import shutil
+
+    shutil.rmtree(d, ignore_errors=True)
+    return {"workers": sorted(per_pid.values()), "completion_order": order, "suspended_workers": K - len(per_pid),
+            "per_chain": {str(c): {"digest": trace_digest(res[c]["trace"]), "brief": trace_brief(res[c]["trace"])} for c in sorted(res)}}
+
+
 def main():
     mode = sys.argv[1]
     cfg = json.loads(sys.argv[2])
@@ -197,6 +309,8 @@ def main():
         out = mode_orders(cfg)
     elif mode == "real":
         out = mode_real(cfg)
+    elif mode == "steer":
+        out = mode_steer(cfg, int(json.loads(sys.argv[3])))
     else:
         raise SystemExit("unknown mode")
     print("C18OUT " + json.dumps(out))
